@@ -396,16 +396,65 @@ theorem mismatch_valueerror (L : Loc) (time : Str) (items : List Item) (now : No
   · simp [he]
   · simp [he, hels, hdup, hno]
 
-theorem class_only_valueerror (L : Loc) (its : List FItem) (hrep : NoRepeat its = true) (hms : MeridiemSafe its = true)
+theorem class_only_valueerror (L : Loc) (its : List FItem) (hrep : NoRepeat its = true)
     (time : Str) (now : Now) :
     (∃ r, parseItems L time (its.map FItem.toItem) now = .ok r) ∨
       parseItems L time (its.map FItem.toItem) now = .error "ValueError" :=
-  parse_class_kinds L its hrep hms time now
+  parse_class_kinds L its hrep time now
 
-/-- why `MeridiemSafe` is asked: with a 24-hour token next to the meridiem, `from_format("13 PM", "HH A")` compares
-    `(13, None, None, None) >= (13, 0, 0, 0)` and raises `TypeError` (observed on the real code as well) -/
-theorem hour24_with_meridiem_typeerror :
-    parse Gen.FormatLocales.loc_en "13 PM".toList "HH A".toList ⟨2000, 1, 1⟩ = .error "TypeError" := by decide +kernel
+/-- a 24-hour token next to the meridiem (repaired code: the members of `(hour, minute, second, microsecond)` that the
+    format does not supply are read as 0 in the test against `(13, 0, 0, 0)`; the shipped code raised `TypeError` on
+    `from_format("13 PM", "HH A")`): an hour of 13 or more is a `ValueError` whatever else was read, hours up to 12 are
+    taken modulo 12 and moved to the afternoon by `PM` -/
+theorem hour24_with_meridiem (p : Parsed) (now : Now) (h : Int) (pm : Bool)
+    (h1 : p.timestamp = none) (h2 : p.quarter = none) (h3 : p.day_of_year = none) (h4 : p.day_of_week = none)
+    (hm : p.meridiem = some pm) (hh : p.hour = some h) (h0 : 0 ≤ h)
+    (hmi : ∀ x, p.minute = some x → 0 ≤ x) (hs : ∀ x, p.second = some x → 0 ≤ x)
+    (hus : ∀ x, p.microsecond = some x → 0 ≤ x) :
+    (13 ≤ h → checkParsed p now = .error "ValueError") ∧
+    (h ≤ 12 → ∃ r, checkParsed p now = .ok r ∧ r.hour = h % 12 + (if pm then 12 else 0) ∧
+      r.minute = p.minute.getD 0 ∧ r.second = p.second.getD 0 ∧ r.microsecond = p.microsecond.getD 0) := by
+  have z : ∀ (o : Option Int), (∀ x, o = some x → 0 ≤ x) → 0 ≤ orZero o := by
+    intro o ho
+    cases o with
+    | none => simp [orZero]
+    | some x => simpa [orZero] using ho x rfl
+  have z1 := z _ hmi; have z2 := z _ hs; have z3 := z _ hus
+  constructor
+  · intro hge
+    have hl : meridiemTooLate h p.minute p.second p.microsecond = true := by
+      unfold meridiemTooLate
+      by_cases c : h > 13
+      · simp [c]
+      · have : h = 13 := by omega
+        subst this
+        by_cases c1 : orZero p.minute > 0
+        · simp [c1]
+        · have e1 : orZero p.minute = 0 := by omega
+          by_cases c2 : orZero p.second > 0
+          · simp [e1, c2]
+          · have e2 : orZero p.second = 0 := by omega
+            simp [e1, e2, z3]
+    unfold checkParsed
+    simp [h1, h2, h3, h4, hm, hh, hl, bind, Except.bind, pure, Except.pure, throw, throwThe, MonadExceptOf.throw]
+  · intro hle
+    have hl := meridiemTooLate_small h p.minute p.second p.microsecond hle
+    unfold checkParsed
+    simp [h1, h2, h3, h4, hm, hh, hl, bind, Except.bind, pure, Except.pure]
+
+/-- … on concrete strings: `"13 PM"`, `"13 AM"` (and `"13:00 PM"`, `"14 PM"`) against `HH A` are `ValueError`s,
+    `"11 PM"` is 23:00, `"12 AM"` is 00:00, `"12 PM"` is 12:00 -/
+theorem hour24_with_meridiem_strings :
+    parse Gen.FormatLocales.loc_en "13 PM".toList "HH A".toList ⟨2000, 1, 1⟩ = .error "ValueError" ∧
+    parse Gen.FormatLocales.loc_en "13 AM".toList "HH A".toList ⟨2000, 1, 1⟩ = .error "ValueError" ∧
+    parse Gen.FormatLocales.loc_en "13 pm".toList "H a".toList ⟨2000, 1, 1⟩ = .error "ValueError" ∧
+    parse Gen.FormatLocales.loc_en "13:00 PM".toList "HH:mm A".toList ⟨2000, 1, 1⟩ = .error "ValueError" ∧
+    parse Gen.FormatLocales.loc_en "14 PM".toList "HH A".toList ⟨2000, 1, 1⟩ = .error "ValueError" ∧
+    parse Gen.FormatLocales.loc_en "11 PM".toList "HH A".toList ⟨2000, 1, 1⟩ = .ok ⟨2000, 1, 1, 23, 0, 0, 0, none⟩ ∧
+    parse Gen.FormatLocales.loc_en "12 AM".toList "HH A".toList ⟨2000, 1, 1⟩ = .ok ⟨2000, 1, 1, 0, 0, 0, 0, none⟩ ∧
+    parse Gen.FormatLocales.loc_en "12 PM".toList "HH A".toList ⟨2000, 1, 1⟩ = .ok ⟨2000, 1, 1, 12, 0, 0, 0, none⟩ ∧
+    parse Gen.FormatLocales.loc_en "12:59 am".toList "H:mm a".toList ⟨2000, 1, 1⟩ = .ok ⟨2000, 1, 1, 0, 59, 0, 0, none⟩ := by
+  decide +kernel
 
 /-! ## per-locale table theorems (regenerated data, kernel evaluation) -/
 
@@ -476,8 +525,10 @@ example : format Gen.FormatLocales.loc_en ⟨2021, 3, 5, 0, 7, 9, 123456, -1800,
     parse Gen.FormatLocales.loc_en "21 064 12:07:09.123 AM -00:30".toList "YY DDDD hh:mm:ss.SSS A Z".toList ⟨1999, 12, 31⟩
       = .ok ⟨2021, 3, 5, 0, 7, 9, 123000, some (TzP.fixed (-1800))⟩ := by decide +kernel
 
-example : AmPmOK Gen.FormatLocales.loc_en = true ∧ MeridiemSafe [.tok .hh, .lit ' ', .tok .A] = true ∧
-    MeridiemSafe [.tok .HH, .lit ' ', .tok .A] = false := by decide
+example : AmPmOK Gen.FormatLocales.loc_en = true ∧ NoRepeat [.tok .HH, .lit ' ', .tok .A] = true := by decide
+/-- `hour24_with_meridiem` is not vacuous: the state read from `"13 PM"` / `HH A` -/
+example : checkParsed { hour := some 13, meridiem := some true } ⟨2000, 1, 1⟩ = .error "ValueError" ∧
+    checkParsed { hour := some 11, meridiem := some true } ⟨2000, 1, 1⟩ = .ok ⟨2000, 1, 1, 23, 0, 0, 0, none⟩ := by decide +kernel
 
 /-- defaults: only a time of day was read -/
 example : checkParsed { hour := some 12, minute := some 30 } ⟨2015, 11, 12⟩ = .ok ⟨2015, 11, 12, 12, 30, 0, 0, none⟩ := by decide +kernel
